@@ -169,6 +169,8 @@ class Substitutor(SchemaVisitor[GenericSchema]):
         keys: Dict[Any, Any] = {}
         if schema.props.keys is Nil or (len(schema.props.keys) == 1 and ... in schema.props.keys):
             for key, val in value.items():
+                if is_ellipsis(val) and not is_ellipsis(key):
+                    raise SubstitutionError(f"Can't substitute ... for undeclared key {key!r}")
                 keys[key] = (... if is_ellipsis(val) else self._from_native(val), False)
             if (schema.props.keys is not Nil) and (... in schema.props.keys):
                 keys[...] = (..., False)
